@@ -99,6 +99,30 @@ class FakeRandom:
         raise AssertionError
 
 
+def _canon(x):
+    return "-".join(str(y) for y in x) if isinstance(x, (list, tuple)) else str(x)
+
+
+def quote_tag(template):
+    """what the fabulist stand-ins echo for get_quote(template)"""
+    return "[Q:" + ("|".join(template) if isinstance(template, (list, tuple)) else template) + "]"
+
+
+LOREM_KEYS = ("sentence_count", "dialect", "entropy", "keep_first", "words_per_sentence")
+LOREM_DEFAULTS = dict(sentence_count=(2, 6), dialect="ipsum", entropy=2, keep_first=False, words_per_sentence=(3, 15))
+
+
+def lorem_tag(kw):
+    """what the fabulist stand-ins echo for get_lorem_paragraph(**kw)"""
+    return "[L:" + "|".join(_canon(kw.get(k, "?")) for k in LOREM_KEYS) + ("" if set(kw) <= set(LOREM_KEYS) else "|+") + "]"
+
+
+def declared_tag(j):
+    if j["R"] == "Text":
+        return quote_tag(j["tmpl"])
+    return lorem_tag(dict(LOREM_DEFAULTS, **(j.get("kw") or {})))
+
+
 class FakeFab:
     def __init__(self, st: Stream):
         self._st = st
@@ -107,10 +131,10 @@ class FakeFab:
         return True
 
     def get_quote(self, template):
-        return self._st.next("text")[2]
+        return quote_tag(template) + self._st.next("text")[2]
 
     def get_lorem_paragraph(self, **kw):
-        return self._st.next("text")[2]
+        return lorem_tag(kw) + self._st.next("text")[2]
 
 
 class RecRandom:
@@ -154,13 +178,13 @@ class RecFab:
         t = self._real.get_quote(template)
         self._st.draws.append((0, 1, t))
         self._st.next("text")
-        return t
+        return quote_tag(template) + t
 
     def get_lorem_paragraph(self, **kw):
         t = self._real.get_lorem_paragraph(**kw)
         self._st.draws.append((0, 1, t))
         self._st.next("text")
-        return t
+        return lorem_tag(kw) + t
 
 
 class patched:
@@ -234,9 +258,10 @@ def py_value(j):
     if k == "Sample":
         return TG.SampleRandomizer([py_value(v) for v in j["vals"]], counts=j["counts"], probability=p)
     if k == "Text":
-        return TG.TextRandomizer(j["tmpl"], probability=p)
+        return TG.TextRandomizer(tuple(j["tmpl"]) if isinstance(j["tmpl"], list) else j["tmpl"], probability=p)
     if k == "BlindText":
-        return TG.BlindTextRandomizer(probability=p)
+        kw = {a: (tuple(b) if isinstance(b, list) else b) for a, b in (j.get("kw") or {}).items()}
+        return TG.BlindTextRandomizer(probability=p, **kw)
     raise ValueError(j)
 
 
@@ -252,6 +277,129 @@ def py_def(desc):
         sd["types"] = {t: py_spec(s) for t, s in desc["types"]}
     sd["relations"] = {p: {c: py_spec(s) for c, s in cs} for p, cs in desc["relations"]}
     return sd
+
+
+def expand_pool(step):
+    """a step with every {"pool": k} reference replaced by the pool entry (for the model and the oracle)"""
+    pool = step.get("pool") or []
+
+    def ex(spec):
+        return [[k, pool[v["pool"]] if isinstance(v, dict) and "pool" in v else v] for k, v in spec]
+
+    out = dict(step)
+    out.pop("pool", None)
+    if step.get("types") is not None:
+        out["types"] = [[t, ex(sp)] for t, sp in step["types"]]
+    out["relations"] = [[p, [[c, ex(sp)] for c, sp in cs]] for p, cs in step["relations"]]
+    return out
+
+
+def reconfigure(obj, j):
+    """set every public attribute of a live randomizer to the configuration j (same class)"""
+    k = j["R"]
+    obj.probability = fl(j["p"])
+    if k == "RangeI":
+        obj.min, obj.max, obj.none_value = j["lo"], j["hi"], py_value(j["none"])
+    elif k == "RangeF":
+        obj.min, obj.max, obj.none_value = fl(j["lo"]), fl(j["hi"]), py_value(j["none"])
+    elif k == "Date":
+        days = j["days"] if j.get("days") is not None else j["max"] - j["min"]
+        obj.min = datetime.date.fromordinal(j["min"])
+        obj.delta_days = days
+        obj.max = obj.min + datetime.timedelta(days=days)
+        obj.as_js_stamp = j["stamp"]
+    elif k == "Value":
+        obj.value = py_value(j["v"])
+    elif k == "Sample":
+        obj.sample_list = [py_value(v) for v in j["vals"]]
+        obj.counts = j["counts"]
+    elif k == "Text":
+        obj.template = tuple(j["tmpl"]) if isinstance(j["tmpl"], list) else j["tmpl"]
+    elif k == "BlindText":
+        for a, b in dict(LOREM_DEFAULTS, **(j.get("kw") or {})).items():
+            setattr(obj, a, tuple(b) if isinstance(b, list) else b)
+
+
+class Live:
+    """the caller's objects of a session: ONE structure_def dict (and its nested dicts) and the randomizer
+    objects, kept across builds and edited in place to the configuration of the next step"""
+
+    def __init__(self):
+        self.sd = {}
+        self.pool = []
+        self.pool_json = []
+        self.last = None
+        self.reused = 0
+
+    def _rnd(self, old_obj, old_j, j):
+        if (isinstance(old_obj, TG.Randomizer) and is_rnd(old_j) and old_j["R"] == j["R"]):
+            reconfigure(old_obj, j)
+            self.reused += 1
+            return old_obj
+        return py_value(j)
+
+    def _spec(self, live, old_spec, new_spec, raw_spec):
+        old = dict((k, v) for k, v in (old_spec or []))
+        objs = dict(live)
+        live.clear()
+        for (k, j), (_, raw) in zip(new_spec, raw_spec):
+            if isinstance(raw, dict) and "pool" in raw:
+                live[k] = self.pool[raw["pool"]]
+            elif is_rnd(j):
+                live[k] = self._rnd(objs.get(k), old.get(k), j)
+            else:
+                live[k] = py_value(j)
+
+    def sync(self, desc):
+        pool_json = desc.get("_pool") or []
+        for k, j in enumerate(pool_json):
+            if k < len(self.pool):
+                self.pool[k] = self._rnd(self.pool[k], self.pool_json[k], j)
+            else:
+                self.pool.append(py_value(j))
+        self.pool_json = list(pool_json)
+        last = self.last or {}
+        sd = self.sd
+        if desc.get("name") is not None:
+            sd["name"] = desc["name"]
+        else:
+            sd.pop("name", None)
+        for sect, two_level in (("types", False), ("relations", True)):
+            new = desc.get(sect)
+            if new is None:
+                sd.pop(sect, None)
+                continue
+            livesect = sd.setdefault(sect, {})
+            oldsect = dict((k, v) for k, v in (last.get(sect) or []))
+            keep = dict(livesect)
+            livesect.clear()
+            for name, body in new:
+                d = keep.get(name)
+                if not isinstance(d, dict):
+                    d = {}
+                if two_level:
+                    oldrel = dict((k, v) for k, v in (oldsect.get(name) or []))
+                    keep2 = dict(d)
+                    d.clear()
+                    for c, spec in body:
+                        dd = keep2.get(c)
+                        if not isinstance(dd, dict):
+                            dd = {}
+                        self._spec(dd, oldrel.get(c), spec, raw_of(desc, sect, name, c))
+                        d[c] = dd
+                else:
+                    self._spec(d, oldsect.get(name), body, raw_of(desc, sect, name, None))
+                livesect[name] = d
+        self.last = desc
+        return sd
+
+
+def raw_of(desc, sect, name, child):
+    """the spec as written in the step (with pool references), aligned with the expanded one"""
+    raw = desc.get("_rawstep")
+    if raw is None:
+        return dict(desc[sect])[name] if child is None else dict(dict(desc[sect])[name])[child]
+    return dict(raw[sect])[name] if child is None else dict(dict(raw[sect])[name])[child]
 
 
 def def_shape(x):
@@ -331,7 +479,7 @@ def coq_rnd(j):
         cnt = "None" if j["counts"] is None else "(Some " + H.coq_list(H.z(c) for c in j["counts"]) + ")"
         return f"(RSample {H.coq_list(coq_value(v) for v in j['vals'])} {cnt} {p})"
     if k in ("Text", "BlindText"):
-        return f"(RText {p})"
+        return f"(RText {coq_tmpl(declared_tag(j))} {p})"
     raise ValueError(j)
 
 
@@ -451,8 +599,8 @@ def rnd_allows(j, v, i, path):
     if k == "Sample":
         cnts = j["counts"] or [1] * len(j["vals"])
         return any(x is not None and c > 0 and same(v, plain(x, i, path)) for x, c in zip(j["vals"], cnts))
-    if k in ("Text", "BlindText"):
-        return type(v) is str
+    if k in ("Text", "BlindText"):      # fabulist was called with the declared arguments; its words are an oracle
+        return type(v) is str and v.startswith(expand_str(declared_tag(j), i, path))
     return False
 
 
@@ -469,23 +617,49 @@ def rnd_may_skip(j):
 
 
 def cnt(v):
+    """children a resolved :count stands for; None = range(count) raises TypeError"""
     if v is True:
         return 1
     if type(v) is int:
         return max(v, 0)
-    return 0
+    if v is None or v is False or (type(v) in (float, str) and not v):
+        return 0            # `... or 0`
+    return None
+
+
+def count_typed(j):
+    """can this :count only resolve to something range() accepts?  (CaseC20/RandomTreeProofs count_wfb)"""
+    if not is_rnd(j):
+        return not (isinstance(j, dict) and ("factory" in j or "cb" in j)) and cnt(py_value(j)) is not None
+    k = j["R"]
+    if k == "RangeI":
+        return cnt(py_value(j["none"])) is not None
+    if k == "Value":
+        return count_typed(j["v"])
+    if k == "SparseBool":
+        return True
+    if k == "Sample":
+        return all(count_typed(x) for x in j["vals"])
+    return False
+
+
+def counts_typed(desc):
+    return all(":count" not in m or count_typed(m[":count"])
+               for p, cs in desc["relations"] for c, spec in cs for m in [merged(desc, c, spec)])
 
 
 def allowed_counts(j):
+    """numbers of children a relation with this :count may get in a tree that WAS built (values that make
+    range() raise do not count: with them no tree is returned)"""
     if not is_rnd(j):
-        return {cnt(py_value(j))}
+        return {cnt(py_value(j))} - {None}
     k = j["R"]
     p = Fraction(*j["p"])
     out = set()
     if p < 1:
         out.add(cnt(py_value(j["none"])) if k in ("RangeI", "RangeF") else 0)
     if p == 0:
-        return out          # probability 0.0: never generated (D60)
+        return out - {None}          # probability 0.0: never generated (D60)
     if k == "RangeI":
         out.update(max(x, 0) for x in range(j["lo"], j["hi"] + 1))
     elif k == "Value":
@@ -494,9 +668,8 @@ def allowed_counts(j):
         out.add(1)
     elif k == "Sample":
         out.update(cnt(py_value(x)) for x in j["vals"])
-    else:
-        out.add(0)
-    return out
+    # RangeF / Date / Text: floats, dates and strings are refused by range()
+    return out - {None}
 
 
 def merged(desc, ctype, spec):
@@ -618,7 +791,7 @@ def cyclic(desc):
     for p, cs in desc["relations"]:
         for c, spec in cs:
             m = merged(desc, c, spec)
-            if c in rels and (":count" not in m or max(allowed_counts(m[":count"])) > 0):
+            if c in rels and (":count" not in m or max(allowed_counts(m[":count"]), default=0) > 0):
                 edges.setdefault(p, []).append(c)
     state = {}
 
@@ -697,7 +870,7 @@ class Prop:
         "randrange(a,b)=a+n mod (b-a), random()=(n mod d)/d, uniform(a,b)=a+(b-a)*random(), sample = index n mod total into the expanded population",
         "floats are fed exactly representable values (dyadic rationals), so float arithmetic in uniform() is exact",
         "D39 (domain): the relation graph restricted to relations that may create a child is acyclic",
-        "domain: :count resolves to int/bool/None; :factory is DictWrapper or a keyword-argument class of the harness; :callback is absent or one of two families (set key to int, delete key); templates use only {idx}, {idx:0Nd}, {hier_idx}, {{, }}",
+        "domain (counts_wf, decided per case): :count resolves to int/bool/None/0.0/\"\" - anything else is refused by range() with TypeError (modelled); :factory is DictWrapper or a keyword-argument class of the harness; :callback is absent or one of two families (set key to int, delete key); templates use only {idx}, {idx:0Nd}, {hier_idx}, {{, }}",
     ]
     manifest = dict(
         text=("Machine-checked theorems (Coq 8.16, no axioms) about an executable model of nutree/tree_generator.py in which the global "
@@ -712,10 +885,22 @@ class Prop:
               "independent Python conformance oracle."),
         note=("Trusted: Coq kernel + vm_compute; hand-written model theories/Forest/RandomTree.v (tied by the correspondence and the generated "
               "source facts only); the harness's stand-ins for random.random/randrange/uniform/sample and fabulist; floats are fed dyadic "
-              "values so that uniform() is exact.  D39 (cyclic definitions do not terminate) is a recorded domain restriction "
-              "(hypothesis rank_ok; C20_terminates_for_every_definition_refuted).  D60 (probability 0.0 could generate) is repaired by "
-              "fixes/D60.diff.  The oracle accepts the closed declared range [min,max]; the theorems and the correspondence pin the "
-              "half-open range the code draws from."),
+              "values so that uniform() is exact.  TEXT CONTENT IS AN ORACLE: for Text-/BlindTextRandomizer the claim is only that the value is "
+              "absent or the answer of fabulist for exactly the DECLARED arguments (template / sentence_count, dialect, entropy, keep_first, "
+              "words_per_sentence) - the stand-ins (and the wrapper around the real fabulist) echo the arguments they were called with in front "
+              "of the text, model and oracle expect the echo of the declared ones (C20_text_randomizers); nothing is claimed about the words "
+              "fabulist picks; with fabulist absent both constructors raise RuntimeError (cases CCtorNoFab).  CLASS / KIND: C20_class_and_kind "
+              "and C20_class_independent are definitional in the model (proved by reflexivity); they speak about exactly the terms run20 "
+              "evaluates (class, name, kind_of of every node), the clause itself is carried by the correspondence (class, name and every node's "
+              "kind observed) and by the oracle (kind = relation type for every node, plain Node in a plain Tree).  NON-INT :count: a float, "
+              "non-empty str, date, class as :count (fixed or from a randomizer) makes range(count) raise TypeError - sane refusal, not a defect; "
+              "the model reproduces it (count_err / raised), such definitions are outside the conformance theorems (hypothesis counts_wf, decided "
+              "per case by in_domain) and the generator produces them (None, 0.0, \"\" mean 0 children).  'Caller's definition not modified' is "
+              "outside the value model: checked by the oracle (snapshot around every build).  D39 (cyclic definitions do not terminate) is a "
+              "recorded domain restriction (hypothesis rank_ok; C20_terminates_for_every_definition_refuted).  D60 (probability 0.0 could generate) "
+              "and D61 (attribute names dict_inst/self) are repaired.  The oracle accepts the closed declared range [min,max]; the theorems and the "
+              "correspondence pin the half-open range the code draws from (floats: exact rationals, q < max; IEEE rounding of uniform() may "
+              "return max)."),
         technique="Coq proof about an executable Gallina model + differential correspondence check (vm_compute) + Python oracle",
         design_ref="DESIGN.md section 6 (C20), section 7 (D39)",
     )
@@ -725,6 +910,8 @@ class Prop:
         yield from CORPUS
         for _ in range(60 if tier == "quick" else 400):
             yield dict(ctor=gen_ctor(rng))
+        for _ in range(25 if tier == "quick" else 150):
+            yield dict(ctor=gen_ctor(rng), nofab=True)
         for _ in range(40 if tier == "quick" else 200):
             d = gen_def(rng)
             if '"RangeF"' in _json.dumps(d) or fab_missing():
@@ -734,6 +921,8 @@ class Prop:
             d = gen_def(rng)
             d["relations"] = [r for r in d["relations"] if r[0] != "__root__"]
             yield dict(d, typed=rng.random() < 0.5, stream=gen_stream(rng))
+        for _ in range(70 if tier == "quick" else 500):
+            yield gen_session(rng)
         ndefs = 150 if tier == "quick" else 800
         for _ in range(ndefs):
             d = gen_def(rng)
@@ -744,6 +933,18 @@ class Prop:
                     yield dict(d, typed=not typed, stream=gen_stream(rng))
 
     def shrink_candidates(self, desc):
+        if "ctor" in desc:
+            return
+        if "session" in desc:
+            steps = desc["session"]
+            for k in range(len(steps) - 1, -1, -1):
+                if len(steps) > 1:
+                    yield dict(session=steps[:k] + steps[k + 1:])
+            for k, step in enumerate(steps):
+                for cand in self.shrink_candidates(step):
+                    if set(cand) == set(step):
+                        yield dict(session=steps[:k] + [cand] + steps[k + 1:])
+            return
         st = desc["stream"]
         if st:
             yield dict(desc, stream=st[: len(st) // 2])
@@ -768,7 +969,32 @@ class Prop:
                 yield dict(desc, types=ty2)
 
     # -------------------------------------------------------------------- run
+    def run_ctor_nofab(self, desc):
+        """fabulist not installed (tree_generator.fab is None)"""
+        j = desc["ctor"]
+        code = 1
+        saved = TG.fab
+        TG.fab = None
+        try:
+            py_value(j)
+        except AssertionError:
+            code = 0
+        except RuntimeError:
+            code = 2
+        finally:
+            TG.fab = saved
+        p = Fraction(*j["p"])
+        k = j["R"]
+        bad = (k == "RangeI" and j["lo"] >= j["hi"]) or (k == "RangeF" and Fraction(*j["lo"]) >= Fraction(*j["hi"])) or \
+            (k == "Date" and (j["days"] if j.get("days") is not None else j["max"] - j["min"]) <= 0)
+        want = 0 if not 0 <= p <= 1 else 2 if k in ("Text", "BlindText") else 0 if bad else 1
+        return Case(desc=desc, coq_input=f"(CCtorNoFab {coq_rnd(j)})", impl_obs=[-3, code],
+                    oracle_fail=None if code == want else f"constructor: without fabulist {j} -> {code}, expected {want}",
+                    nontrivial=False, key=H.digest(desc), stats=dict(ctor_nofab=k, outcome=code))
+
     def run_ctor(self, desc):
+        if desc.get("nofab"):
+            return self.run_ctor_nofab(desc)
         j = desc["ctor"]
         ok = True
         with patched(Stream([])):
@@ -785,9 +1011,11 @@ class Prop:
                     oracle_fail=None if ok == want else f"constructor: {j} accepted={ok}", nontrivial=False,
                     key=H.digest(desc), stats=dict(ctor=k, accepted=ok))
 
-    def run(self, desc) -> Case:
+    def run(self, desc, live=None) -> Case:
         if "ctor" in desc:
             return self.run_ctor(desc)
+        if "session" in desc:
+            return self.run_session(desc)
         cls = TypedTree if desc["typed"] else Tree
         st = Stream(desc["stream"])
         fuel = len(desc["relations"]) + 1
@@ -799,7 +1027,7 @@ class Prop:
         real = desc.get("real_seed")       # the real random module + the real fabulist answer; the draws are recorded
         with patched(st, real):
             try:
-                sd = py_def(desc)
+                sd = live.sync(desc) if live is not None else py_def(desc)
                 before = def_shape(sd)
                 tree = cls.build_random_tree(sd)
                 if def_shape(sd) != before:
@@ -813,7 +1041,8 @@ class Prop:
         coq_in = f"(CBuild {H.coq_bool(desc['typed'])} {coq_def(desc)} {fuel} {coq_rk} {coq_stream((st.draws if real is not None else desc['stream'])[:st.pos + 6])})"
         no_root = not any(p == "__root__" for p, _ in desc["relations"])
         if err is not None:
-            refused = no_root and isinstance(err, AssertionError)      # assert "__root__" in relations
+            refused = (no_root and isinstance(err, AssertionError)) or \
+                (not no_root and isinstance(err, TypeError) and not counts_typed(desc))   # range(count) refuses a non-int :count
             return Case(desc=desc, coq_input=coq_in, impl_obs=[-2, H.err_class(err)],
                         oracle_fail=None if refused else f"crash: {type(err).__name__}: {err}", nontrivial=False,
                         key=H.digest(desc), stats=dict(error=type(err).__name__))
@@ -821,7 +1050,8 @@ class Prop:
             return Case(desc=desc, coq_input=coq_in, impl_obs=[0], oracle_fail="refusal: definition without '__root__' accepted",
                         nontrivial=False, key=H.digest(desc))
         obs = [type(tree) is TypedTree, H.sx_opt(tree.name if desc.get("name") is not None else None),
-               [obs_node(c) for c in (tree._root._children or [])], rk is not None, tree._forward_attrs is True]
+               [obs_node(c) for c in (tree._root._children or [])], rk is not None and counts_typed(desc),
+               tree._forward_attrs is True]
         fail = oracle(desc, tree)
         if fail is None and mutated:
             fail = "definition: build_random_tree modified the caller's structure definition"
@@ -833,8 +1063,31 @@ class Prop:
                     nontrivial=n >= 2 and st.pos >= 1, key=H.digest(desc),
                     stats=dict(nodes=min(n, 60) // 5 * 5, depth=depth, draws=min(st.pos, 100) // 10 * 10,
                                stream_exhausted=st.pos > len(st.draws), calls="+".join(kinds), typed=desc["typed"], real_random=real is not None,
-                               in_theorem_domain=rk is not None, uses_callback='":callback"' in _json.dumps(desc),
+                               in_theorem_domain=rk is not None and counts_typed(desc), uses_callback='":callback"' in _json.dumps(desc),
                                uses_obj_factory='"Obj"' in _json.dumps(desc)))
+
+    def run_session(self, desc):
+        """several builds from ONE structure-definition object and the same randomizer objects, re-configured
+        through their public attributes / by editing the dicts in between; every build must conform to the
+        configuration at the time of that build (the model is evaluated per step on that configuration)"""
+        live = Live()
+        cases = []
+        for k, step in enumerate(desc["session"]):
+            full = expand_pool(step)
+            full["_pool"] = step.get("pool") or []
+            full["_rawstep"] = step
+            cases.append(self.run(full, live=live))
+        fail = None
+        for k, c in enumerate(cases):
+            if c.oracle_fail:
+                tag, _, rest = c.oracle_fail.partition(":")
+                fail = f"{tag}: [session step {k}]{rest}"
+                break
+        return Case(desc=desc, coq_input="(CSeq " + H.coq_list(c.coq_input for c in cases) + ")",
+                    impl_obs=[c.impl_obs for c in cases], oracle_fail=fail,
+                    nontrivial=any(c.nontrivial for c in cases), key=H.digest(desc),
+                    stats=dict(session_steps=len(cases), session_reused_randomizers=min(live.reused, 20),
+                               session_classes="".join("T" if st["typed"] else "P" for st in desc["session"])))
 
     def run_cyclic(self, desc, cls, st):
         """D39: the code recurses without end; observed as RecursionError under a lowered limit."""
@@ -910,8 +1163,19 @@ def gen_rnd(rng):
                 counts[rng.randrange(n)] = 2
         return {"R": k, "vals": vals, "counts": counts, "p": p}
     if k == "Text":
-        return {"R": k, "tmpl": "$(Noun) {idx}", "p": p}
-    return {"R": k, "p": p}
+        return {"R": k, "tmpl": rng.choice(["$(Noun) {idx}", "{idx}: Provide $(Noun:plural)", "$(Verb:ing) $(noun)", ["$(Noun)", "a $(adj) $(noun) {hier_idx}"]]), "p": p}
+    kw = {}
+    if rng.random() < 0.6:
+        kw["sentence_count"] = rng.choice([1, 2, [1, 3]])
+    if rng.random() < 0.4:
+        kw["dialect"] = rng.choice(["ipsum", "pulp", "trappatoni"])
+    if rng.random() < 0.3:
+        kw["entropy"] = rng.choice([0, 1, 3])
+    if rng.random() < 0.3:
+        kw["keep_first"] = True
+    if rng.random() < 0.4:
+        kw["words_per_sentence"] = rng.choice([4, [2, 5]])
+    return {"R": k, "kw": kw, "p": p}
 
 
 def fab_missing():
@@ -944,6 +1208,12 @@ def gen_callback(rng):
 
 def gen_count(rng, positive=False):
     r = rng.random()
+    if not positive and rng.random() < 0.06:
+        # not an int: range(count) raises TypeError (or, for the falsy ones, `or 0` applies)
+        return rng.choice([{"f": [5, 2]}, {"f": [8, 4]}, {"f": [0, 1]}, "x", "", {"d": D0}, "{idx}",
+                           {"R": "RangeF", "lo": [4, 4], "hi": [12, 4], "p": rng.choice(CPROBS), "none": None},
+                           {"R": "Value", "v": "two", "p": [1, 2]},
+                           {"R": "Sample", "vals": [1, {"f": [6, 4]}, 2], "counts": None, "p": [1, 1]}])
     if positive:
         if r < 0.5:
             return rng.choice([1, 2, 2, 3, 3])
@@ -1027,13 +1297,132 @@ def gen_def(rng):
     return dict(name=rng.choice([None, "fmea", ""]), types=types, relations=rels)
 
 
+def regen_same(j, rng):
+    """new parameters for a randomizer of the same class (what re-configuring its public attributes can reach)"""
+    if j["R"] == "Sample" and rng.random() < 0.6:
+        n = len(j["vals"])
+        counts = [rng.choice([0, 0, 1, 2, 3]) for _ in range(n)]
+        if sum(counts) == 0:
+            counts[rng.randrange(n)] = 1
+        return dict(j, counts=counts if rng.random() < 0.85 else None, p=rng.choice(PROBS))
+    for _ in range(200):
+        c = gen_rnd(rng)
+        if c["R"] == j["R"]:
+            if c["R"] == "Sample" and c["counts"] is None and rng.random() < 0.6:
+                c["counts"] = [rng.randint(0, 3) for _ in c["vals"]]
+                if sum(c["counts"]) == 0:
+                    c["counts"][0] = 2
+            return c
+    return j
+
+
+def mutate_spec(spec, rng, count_ok=True):
+    out = []
+    for k, v in spec:
+        r = rng.random()
+        if isinstance(v, dict) and "pool" in v:
+            out.append([k, v])
+        elif k == ":count":
+            out.append([k, gen_count(rng, positive=rng.random() < 0.6) if r < 0.3 else (regen_count(v, rng) if r < 0.6 else v)])
+        elif k in SPECIAL:
+            out.append([k, v])
+        elif is_rnd(v):
+            out.append([k, regen_same(v, rng) if r < 0.6 else (gen_fixed(rng) if r < 0.7 else v)])
+        elif r < 0.25:
+            out.append([k, gen_fixed(rng)])
+        elif r < 0.33:
+            out.append([k, gen_rnd(rng)])
+        elif r < 0.4:
+            continue
+        else:
+            out.append([k, v])
+    if rng.random() < 0.25:
+        free = [k for k in KEYS if k not in [x[0] for x in out]]
+        if free:
+            out.insert(rng.randint(0, len(out)), [rng.choice(free), gen_rnd(rng) if rng.random() < 0.5 else gen_fixed(rng)])
+    return out
+
+
+def regen_count(v, rng):
+    if is_rnd(v) and v["R"] == "RangeI":
+        lo = rng.choice([0, 1, 1, 2])
+        return dict(v, lo=lo, hi=lo + rng.randint(1, 3), p=rng.choice(CPROBS), none=rng.choice([None, None, 1, 2]))
+    if is_rnd(v) and v["R"] == "Sample":
+        vals = [rng.randint(0, 3) for _ in v["vals"]]
+        counts = [rng.randint(0, 2) for _ in vals]
+        if sum(counts) == 0:
+            counts[0] = 1
+        return dict(v, vals=vals, counts=counts)
+    return gen_count(rng)
+
+
+def mutate_step(step, rng):
+    new = dict(step)
+    new["pool"] = [regen_same(j, rng) if rng.random() < 0.7 else j for j in step.get("pool") or []]
+    if step.get("types") is not None:
+        new["types"] = [[t, mutate_spec(sp, rng)] for t, sp in step["types"]]
+        if rng.random() < 0.1:
+            new["types"] = new["types"][1:]
+    elif rng.random() < 0.15:
+        new["types"] = [["*", gen_attrs(rng, 2, 0.5)]]
+    new["relations"] = [[p, [[c, mutate_spec(sp, rng)] for c, sp in cs]] for p, cs in step["relations"]]
+    new["typed"] = (not step["typed"]) if rng.random() < 0.6 else step["typed"]
+    new["name"] = rng.choice([step.get("name"), step.get("name"), None, "t2"])
+    new["stream"] = gen_stream(rng)
+    return new
+
+
+def gen_session(rng):
+    d = gen_def(rng)
+    # randomizer objects shared by several attributes / relations of the definition
+    pool = []
+    for _ in range(rng.choice([0, 1, 1, 2])):
+        j = gen_rnd(rng)
+        if rng.random() < 0.5:
+            vals = [gen_fixed(rng) for _ in range(rng.randint(2, 4))]
+            j = {"R": "Sample", "vals": vals, "counts": [rng.randint(1, 3) for _ in vals], "p": rng.choice([[1, 1], [1, 1], [3, 4]])}
+        pool.append(j)
+    if pool:
+        for p, cs in d["relations"]:
+            for c, spec in cs:
+                if rng.random() < 0.7:
+                    free = [k for k in KEYS if k not in [x[0] for x in spec]]
+                    if free:
+                        spec.insert(rng.randint(0, len(spec)), [rng.choice(free), {"pool": rng.randrange(len(pool))}])
+    # weighted samples are the randomizers with the most state: make sure they occur
+    for p, cs in d["relations"]:
+        for c, spec in cs:
+            for kv in spec:
+                if is_rnd(kv[1]) and kv[1]["R"] == "Sample" and kv[1]["counts"] is None and rng.random() < 0.7:
+                    kv[1]["counts"] = [rng.randint(1, 3) for _ in kv[1]["vals"]]
+    step = dict(d, pool=pool, typed=rng.random() < 0.5, stream=gen_stream(rng))
+    steps = [step]
+    for _ in range(rng.choice([1, 2, 2, 3])):
+        step = mutate_step(step, rng)
+        steps.append(step)
+    return dict(session=steps)
+
+
 def gen_stream(rng):
     n = rng.choice([0, 5, 20, 40, 80, 160, 240])
     hi = rng.choice([3, 10, 200])
     return [[rng.randint(-hi, hi), rng.choice([1, 2, 2, 4, 4, 8, 64]), rng.choice(TEXTS)] for _ in range(n)]
 
 
+def _ticket_step(typed, vals, counts, stream):
+    return dict(typed=typed, name="tickets", types=None, pool=[{"R": "Sample", "vals": vals, "counts": counts, "p": [1, 1]}],
+                relations=[["__root__", [["ticket", [[":count", 4], ["title", "Ticket {idx}"], ["state", {"pool": 0}]]]]],
+                           ["ticket", [["task", [[":count", 2], ["title", "Task {hier_idx}"], ["state", {"pool": 0}]]]]]],
+                stream=stream)
+
+
+_TS = [[n, 1, ""] for n in (0, 1, 2, 3, 4, 5, 6, 7, 8, 9, 10, 11)]
+
 CORPUS = [
+    # one weighted SampleRandomizer object shared by two relations, re-configured between builds (counts, then sample_list),
+    # Tree and TypedTree from the same definition object in both orders
+    dict(session=[_ticket_step(False, ["open", "closed"], [3, 1], _TS), _ticket_step(True, ["open", "closed"], [0, 1], _TS),
+                  _ticket_step(False, ["archived", "deleted"], [1, 1], _TS), _ticket_step(True, ["open", "closed"], [3, 1], _TS)]),
     # D61: attribute names that collide with DictWrapper.__init__'s own parameters
     dict(typed=True, name=None, types=None,
          relations=[["__root__", [["a", [["dict_inst", 1], ["self", "x{idx}"]]]]]], stream=[]),
